@@ -10,7 +10,8 @@ CONSTANTS MaxSteps,      \* history length bound
           Rich,          \* FALSE: fields are u8 / Option<u8>; TRUE: also String and a nested record
           Embs,          \* embeddings to check
           NoExclusion,   \* TRUE: do not apply the DESIGN-9 exclusion (must then FAIL: vacuity guard)
-          NoLastRule,    \* TRUE: drop "last in its chunk" from legality (must then FAIL)
+          NoLastRule,    \* TRUE: drop "last in its chunk" from legality (must then FAIL, unless HalfLegal)
+          HalfLegal,     \* TRUE (with NoLastRule): only check the direction that still works (see IrregularStep)
           SampleMod,     \* emit only histories whose fingerprint falls in 1 of SampleMod classes at full length (1 = all)
           SamplePhase    \* which class (seed-dependent)
 VARIABLES D0, H
@@ -51,7 +52,16 @@ Outcome(w, r, emb, v) ==
     ELSE [agree |-> ~got.ok /\ got.err = exp.err, why |-> "error", got |-> got, exp |-> exp, b |-> e.b]
 
 Pairs == {<<w, r>> \in (0..Len(H)) \X (0..Len(H)) : w = Len(H) \/ r = Len(H)}
-Skip(w, r, emb) == ~NoExclusion /\ Excluded(emb, Ver(D0, H, w), Ver(D0, H, r))
+\* HalfLegal (beyond C03's quantifier): a field may be removed / made transient although other fields of its
+\* chunk follow it.  Newer definitions then cannot read older data (nothing says where the dropped field's
+\* bytes are), but older definitions can still read newer data, because the header names the removed field
+\* and removed fields do not take a position.  Pairs that cross such a step forwards are skipped.
+IrregularStep(i) == H[i].op \in {"Removed", "MadeTransient"} /\ ~LastInChunk(Ver(D0, H, i - 1), H[i].n)
+CrossesForward(w, r) == \E i \in (w + 1)..r : IrregularStep(i)
+Irregular == \E i \in 1..Len(H) : IrregularStep(i)
+Skip(w, r, emb) == \/ (~NoExclusion /\ Excluded(emb, Ver(D0, H, w), Ver(D0, H, r)))
+                   \/ (HalfLegal /\ CrossesForward(w, r))
+                   \/ (HalfLegal /\ Irregular /\ Len(Ver(D0, H, w).steps) = 0)     \* headerless data carries no names
 
 \* C03: no other outcome is possible
 EvolutionOutcome ==
@@ -65,14 +75,14 @@ EvolvedSelfDelimiting ==
   \A p \in Pairs : \A v \in StructVals(Ver(D0, H, p[1])) :
     LET DW == Ver(D0, H, p[1]) DR == Ver(D0, H, p[2])
         e == Encode(DW, v) exp == Expected(D0, H, p[1], p[2], v) IN
-    (Len(DW.steps) > 0 /\ exp.ok) =>
+    (Len(DW.steps) > 0 /\ exp.ok /\ ~Skip(p[1], p[2], "Top")) =>
       \A s \in {<<0>>, <<1, 0>>, <<255>>} : LET d == Decode(DR, e.b \o s) IN d.ok /\ d.p = Len(e.b) + 1
 
 \* C08 for evolved records: with stored version >= 1 every strict prefix is rejected by every version
 EvolvedPrefixRejected ==
   \A p \in Pairs : \A v \in StructVals(Ver(D0, H, p[1])) :
     LET DW == Ver(D0, H, p[1]) DR == Ver(D0, H, p[2]) e == Encode(DW, v) IN
-    Len(DW.steps) > 0 => \A k \in 0..(Len(e.b) - 1) : ~Decode(DR, SubSeq(e.b, 1, k)).ok
+    (Len(DW.steps) > 0 /\ ~Skip(p[1], p[2], "Top")) => \A k \in 0..(Len(e.b) - 1) : ~Decode(DR, SubSeq(e.b, 1, k)).ok
 
 -----------------------------------------------------------------------------
 (* Emission: per state the cases whose newest version is the last one.      *)
